@@ -111,7 +111,7 @@ func (fr *Frame) instr(n *unode, s *State, g *Term, ins ssa.Instruction, rets *[
 		s.regs[ins] = c.RSub(p, ins.Field)
 		if pt, ok := ins.Type().Underlying().(*types.Pointer); ok && !fr.spec {
 			// (not in specification code: its locals are virtual objects that share allocation numbers)
-			x.ptrTagElem(s.regs[ins], pt.Elem())
+			x.ptrTagElem(g, s.regs[ins], pt.Elem())
 		}
 	case *ssa.Index:
 		xv := val(ins.X)
@@ -135,7 +135,7 @@ func (fr *Frame) instr(n *unode, s *State, g *Term, ins ssa.Instruction, rets *[
 			fr.oblige("bounds", "", ins.Pos(), g, c.BVCmp("bvult", iv, c.SlLen(xv)), "slice index in range")
 			s.regs[ins] = x.sliceElemAddr(xv, iv)
 			if !fr.spec {
-				x.ptrTagElem(s.regs[ins], u.Elem())
+				x.ptrTagElem(g, s.regs[ins], u.Elem())
 			}
 		case *types.Pointer:
 			arr := u.Elem().Underlying().(*types.Array)
@@ -143,7 +143,7 @@ func (fr *Frame) instr(n *unode, s *State, g *Term, ins ssa.Instruction, rets *[
 			fr.oblige("bounds", "", ins.Pos(), g, c.BVCmp("bvult", iv, c.BV(uint64(arr.Len()), 64)), "array index in range")
 			s.regs[ins] = c.RElem(xv, iv)
 			if !fr.spec {
-				x.ptrTagElem(s.regs[ins], arr.Elem())
+				x.ptrTagElem(g, s.regs[ins], arr.Elem())
 			}
 		default:
 			panic("IndexAddr on " + ins.X.Type().String())
@@ -731,6 +731,8 @@ func (fr *Frame) typeAssert(s *State, g *Term, ins *ssa.TypeAssert) *Term {
 	srt := x.ti.sortOf(ins.AssertedType)
 	ok := c.Eq(c.IfaceTag(v), c.Int(x.typeTag(ins.AssertedType)))
 	got := c.UF("iface_get_"+tn, srt, v)
+	// the value held by an interface is a well-formed value of its dynamic type
+	x.assumeWF(c.And(g, ok), got, ins.AssertedType, s)
 	if ins.CommaOk {
 		return c.mk("tuple", "Tuple", 0, "", []*Term{c.Ite(ok, got, x.ti.zero(ins.AssertedType)), ok}, nil, nil)
 	}
